@@ -479,6 +479,60 @@ theorem Iter.takeE_state' (bad : Term → Bool) : ∀ (k : Nat) (e : Iter),
           Iter.drainE_item bad _ hs]
         simp
 
+/-! #### `peek(k)` -/
+
+theorem Iter.takeE_succ_item (bad : Term → Bool) {e e' : Iter} {x : Term} (k : Nat) (hs : e.stepE bad = (.item x, e')) :
+    (e.takeE bad (k + 1)).2 = (e'.takeE bad k).2 := by
+  simp only [Iter.takeE, hs]
+  cases h : (e'.takeE bad k) with
+  | mk r e'' => cases r <;> rfl
+
+theorem Iter.peekE_outs (bad : Term → Bool) : ∀ (k : Nat) (acc : List Term) (e : Iter),
+    (e.peekE bad k acc).1 =
+      (match takeOuts (e.drainE bad k) with
+       | .ok xs => .ok (acc ++ xs)
+       | .error t => .error t) ∧
+    (e.peekE bad k acc).2 = .chain (.list 0 (acc ++ itemTerms (e.drainE bad k))) (e.takeE bad k).2 := by
+  intro k
+  induction k with
+  | zero => intro acc e; simp [Iter.peekE, takeOuts, itemTerms, Iter.takeE]
+  | succ k ih =>
+    intro acc e
+    cases hs : e.stepE bad with
+    | mk o e' =>
+      cases o with
+      | stop => rw [Iter.drainE_stop bad k hs]; simp [Iter.peekE, hs, takeOuts, itemTerms, Iter.takeE]
+      | raised t => rw [Iter.drainE_raised bad k hs]; simp [Iter.peekE, hs, takeOuts, itemTerms, Iter.takeE]
+      | item x =>
+        obtain ⟨h1, h2⟩ := ih (acc ++ [x]) e'
+        rw [Iter.drainE_item bad k hs, Iter.takeE_succ_item bad k hs]
+        simp only [Iter.peekE, hs, h1, h2, takeOuts, itemTerms]
+        constructor
+        · cases takeOuts (e'.drainE bad k) <;> simp
+        · simp
+
+theorem Iter.drainE_buffer (bad : Term → Bool) (L : List Term) (e : Iter) (m : Nat) :
+    (Iter.chain (.list 0 L) e).drainE bad (L.length + m) = L.map .item ++ e.drainE bad m := by
+  rw [Iter.drainE_chain]
+  have h : (Iter.list 0 L).drainE bad (L.length + m) = L.map .item := by
+    induction L with
+    | nil =>
+      cases m with
+      | zero => rfl
+      | succ m => exact Iter.drainE_stop bad m (e := .list 0 []) (e' := .list 0 []) rfl
+    | cons x r ih =>
+      rw [show (x :: r).length + m = (r.length + m) + 1 by simp; omega,
+        Iter.drainE_item bad _ (e := .list 0 (x :: r)) (e' := .list 0 r) (x := x) rfl, ih]
+      rfl
+  rw [h]
+  simp
+
+theorem takeUsed_le_items : ∀ (l : List Out), takeUsed l ≤ (itemTerms l).length + 1 := by
+  intro l
+  induction l with
+  | nil => simp [takeUsed]
+  | cons o r ih => cases o <;> simp [takeUsed, itemTerms] <;> omega
+
 theorem Iter.script_outs (bad : Term → Bool) : ∀ (rs : List Read) (e : Iter) (n : Nat), readsCost rs ≤ n →
     untilEnd rs (e.script bad rs).1 = scriptOuts rs (e.drainE bad n) := by
   intro rs
@@ -513,6 +567,29 @@ theorem Iter.script_outs (bad : Term → Bool) : ∀ (rs : List Read) (e : Iter)
         rw [show takeUsed (e.drainE bad k) + (n - takeUsed (e.drainE bad k)) = n by omega] at hst
         simp only [Bool.false_eq_true, if_false]
         rw [← hst, ih _ (n - takeUsed (e.drainE bad k)) (by omega)]
+    | peek k =>
+      simp only [readsCost, Read.cost] at hn
+      have hk : k ≤ n := by omega
+      have htake := Iter.drainE_take bad k n e hk
+      obtain ⟨hp1, hp2⟩ := Iter.peekE_outs bad k [] e
+      have hp1' : (e.peekE bad k []).1 = takeOuts (e.drainE bad k) := by
+        rw [hp1]; cases takeOuts (e.drainE bad k) <;> simp
+      simp only [Iter.script, untilEnd, scriptOuts, htake, hp1']
+      cases hend : ReadOut.metEnd (.peek k) (.took (takeOuts (e.drainE bad k))) with
+      | true => simp
+      | false =>
+        have hend' : ReadOut.metEnd (.take k) (.took (takeOuts (e.drainE bad k))) = false := by
+          cases h : takeOuts (e.drainE bad k) with
+          | error t => rfl
+          | ok xs => rw [h] at hend; simpa [ReadOut.metEnd] using hend
+        have hu : takeUsed (e.drainE bad k) ≤ k := Nat.le_trans (takeUsed_le _) (Iter.drainE_length_le bad k e)
+        have hu2 := takeUsed_le_items (e.drainE bad k)
+        have hst := Iter.takeE_state' bad k e hend' (n - takeUsed (e.drainE bad k))
+        rw [show takeUsed (e.drainE bad k) + (n - takeUsed (e.drainE bad k)) = n by omega] at hst
+        simp only [Bool.false_eq_true, if_false]
+        rw [← hst, ih _ ((itemTerms (e.drainE bad k)).length + (n - takeUsed (e.drainE bad k))) (by omega), hp2]
+        simp only [List.nil_append]
+        rw [Iter.drainE_buffer]
 
 theorem Iter.takeE_congr (bad bad' : Term → Bool) : ∀ (k : Nat) (e : Iter),
     (∀ q ∈ e.drainQ bad k, ∀ t ∈ q, bad' t = bad t) → e.takeE bad' k = e.takeE bad k := by
